@@ -9,8 +9,10 @@ Definition checked_enc (o : opts) (accept : str -> bool) (r : res (list item)) :
   | Ok its => if xmlCheckIsValid o && negb (accept (emit its)) then Err EOther else Ok its
   | _ => r
   end.
-(* MapSeq.Xml as written in xmlseq.go: the tokenizer is run over *s, a string that is never
-   assigned (the output is in the strings.Builder), i.e. over the empty document *)
+(* MapSeq.Xml as it was written before fix 122e022 (xmlseq.go): the tokenizer was run over *s, a
+   string that was never assigned (the output is in the strings.Builder), i.e. over the empty
+   document.  Since the fix all four encoders are [checked_enc]; this transcription is kept as the
+   regression witness of the oracle key mapseq-xml-check-ignores-output *)
 Definition checked_at_empty (o : opts) (accept : str -> bool) (r : res (list item)) : res (list item) :=
   match r with
   | Ok its => if xmlCheckIsValid o && negb (accept []) then Err EOther else Ok its
